@@ -6,7 +6,7 @@
 Not decided: numeric truth of min/max/range/runCount (value-level); M4 layout agreement is checked in C16-M4 when E-BOUNDS terms exist."""
 import os, re
 from ..report import Run, Finding, rel
-from ..common import lib_module, configs_for, need_fn
+from ..common import lib_module, configs_for, need_fn, with_helpers_inlined
 from ..build import AnalysisBroken, build_module, VERIF
 from ..ir import Module
 from ..core import World
@@ -194,12 +194,8 @@ def analyse(mod, run, label):
             # ---- stores to fields: M2, M3, M5 ----
             rets = [x for x in fn.rets() if x.ops]
             cparam = fn.param_index("count")
-            for i in fn.insts():
-                if i.op != "store": continue
-                fld = field_of(eng, fi, fn, i.ops[1], k, t)
-                if fld is None: continue
+            for (fld, v, i, direct) in effective_stores(mod, w, eng, fn, fi, k, t):
                 leaf = fld.split(".")[-1]
-                v = i.ops[0]
                 # M2
                 if SIZE_FIELDS.match(leaf) and "." not in fld and is_encoder(fn, psum):
                     lv = fi.lin(v)
@@ -207,8 +203,16 @@ def analyse(mod, run, label):
                     for r in rets:
                         rv = r.ops[0]
                         cands = [(rv, r.block.id)]
-                        if rv["k"] == "inst" and fn.imap[rv["v"]].op == "phi" and fn.imap[rv["v"]].block is r.block:
-                            cands = [(inc["v"], inc["b"]) for inc in fn.imap[rv["v"]]["incoming"]]
+                        # the returned value may be merged (single exit through a `done:` label, possibly nested): the ways it was chosen
+                        def unphi(val, via, d=0):
+                            if val["k"] == "inst" and fn.imap[val["v"]].op == "phi" and d < 4 and fn.imap[val["v"]].block.id not in fn.loops():
+                                out_ = []
+                                for inc in fn.imap[val["v"]]["incoming"]:
+                                    if inc["v"]["k"] in ("int", "null"): continue          # failure / empty returns
+                                    out_ += unphi(inc["v"], inc["b"], d + 1)
+                                return out_
+                            return [(val, via)]
+                        if rv["k"] == "inst" and fn.imap[rv["v"]].op == "phi": cands = unphi(rv, r.block.id)
                         for c, via in cands:
                             if via not in reach: continue                      # that return is not reached after this store
                             same = (fi.lin(c) == lv) or same_pure_call(fn, fi, w, strip_casts(fn, c), strip_casts(fn, v))
@@ -230,6 +234,7 @@ def analyse(mod, run, label):
                                   Finding("M3-count-not-argument", fn.name, "%s.%s" % (t, fld), "store",
                                           "%s stores %r into %s, not its count argument" % (fn.name, lv, fld), loc=loc(i)))
                 # M5
+                if not direct: continue                      # (M5 follows helpers from the helper's side, below)
                 if NAMED_KINDS.match(leaf) and v["k"] == "int" and "." not in fld:
                     ok5 = empty_input_only(fn, fi, i, cparam)
                     if not ok5 and fn.internal:
@@ -242,6 +247,30 @@ def analyse(mod, run, label):
                     if not empty_input_only(fn, fi, i, cparam):
                         run.observe("%s stores constant %s into %s.%s (not one of the kinds the property names)" % (fn.name, v["v"], t, fld))
     return nwriters, covered, eng
+
+
+def effective_stores(mod, w, eng, fn, fi, k, t):
+    """(field, stored value as seen in fn, instruction of fn, direct?) for every store to a scalar field of the metadata behind parameter k:
+    the function's own stores, and those a file-local "fill the metadata" helper makes from the arguments fn passes it"""
+    for i in fn.insts():
+        if i.op == "store":
+            fld = field_of(eng, fi, fn, i.ops[1], k, t)
+            if fld is not None: yield fld, i.ops[0], i, True
+        elif i.op == "call":
+            h = mod.fn(i.get("callee") or "")
+            if h is None or not h.internal or h is fn or not h.blocks: continue
+            hfi = None
+            for (m, t2) in meta_params(h):
+                if t2 != t or m >= i["nargs"]: continue
+                root, off = fi.ptr(i.ops[m])
+                if root != ("arg", k) or not off.is_const() or off.c != 0: continue
+                hfi = hfi or w.fi(h).prepare()
+                for j in h.insts():
+                    if j.op != "store": continue
+                    fld = field_of(eng, hfi, h, j.ops[1], m, t)
+                    if fld is None: continue
+                    hv = strip_casts(h, j.ops[0])
+                    if hv["k"] == "arg" and hv["v"] < i["nargs"]: yield fld, i.ops[hv["v"]], i, False
 
 
 def empty_input_only(fn, fi, st, cparam, is_call=False):
@@ -314,6 +343,9 @@ def run(tier):
         n6 = 0
         for pred, enc in M6_PAIRS:
             pt, _ = ST.size_terms(need_fn(mod, pred), mod, "size"); et, _ = ST.size_terms(need_fn(mod, enc), mod, "cursor")
+            if pt and not et:
+                m2, ef2 = with_helpers_inlined(mod, need_fn(mod, enc), cfg)          # encoder split into cursor-returning helpers
+                if m2 is not None: et, _ = ST.size_terms(ef2, m2, "cursor")
             if not pt or not et: raise AnalysisBroken("M6: no size terms for %s / %s" % (pred, enc))
             unc, unexp = ST.match_terms(pt, et, True); n6 += 1
             pf = mod.fn(pred)
@@ -346,11 +378,16 @@ def run(tier):
                         if x.op == "udiv" and x.ops[1]["k"] == "int" and int(x.ops[1]["v"]) == 128: span = u.exact(x.ops[0])
             if span is None: raise AnalysisBroken("M8: block structure of %s not recognised" % enc)
             want = udiv_poly(span + Poly.const(127), 128)
-            stores = [i for i in f.insts() if i.op == "store" and field_leaf(f, mod, i.ops[1]) == "blockCount"]
+            stores = [(i, i.ops[0]) for i in f.insts() if i.op == "store" and field_leaf(f, mod, i.ops[1]) == "blockCount"]
+            if not stores:
+                # filled in by a file-local helper from a value this function passes it
+                ffi = w8.fi(f).prepare()
+                for (mk_, mt_) in meta_params(f):
+                    stores += [(i, v) for (fld, v, i, direct) in effective_stores(mod, w8, eng, f, ffi, mk_, mt_) if fld == "blockCount" and not direct]
             if not stores: run.defer_broken("M8: %s does not store blockCount" % enc); continue
-            for st in stores:
+            for st, stv in stores:
                 u.site = st.block
-                got = u.exact(st.ops[0])
+                got = u.exact(stv)
                 if got is None: run.defer_broken("M8 %s: the value stored into blockCount at %s is not an exact expression of count" % (enc, loc(st))); continue
                 bad = None
                 try:
